@@ -923,7 +923,7 @@ def isenumtype(obj: type) -> compat.TypeIs[type[enum.Enum]]:
         >>> isenumtype(FooNum)
         True
     """
-    return _safe_issubclass(_resolve_wrappers(obj), enum.Enum)
+    return _safe_issubclass(_resolve_class(obj), enum.Enum)
 
 
 @compat.cache
@@ -1222,7 +1222,7 @@ def istexttype(t: type[tp.Any]) -> compat.TypeIs[type[str | bytes | bytearray]]:
         >>> istexttype(MyStr)
         True
     """
-    return _safe_issubclass(_resolve_wrappers(t), (str, bytes, bytearray, memoryview))
+    return _safe_issubclass(_resolve_class(t), (str, bytes, bytearray, memoryview))
 
 
 @compat.cache
@@ -1235,7 +1235,7 @@ def isstringtype(t: type[tp.Any]) -> compat.TypeIs[type[str | bytes | bytearray]
         >>> istexttype(MyStr)
         True
     """
-    return _safe_issubclass(_resolve_wrappers(t), str)
+    return _safe_issubclass(_resolve_class(t), str)
 
 
 @compat.cache
@@ -1248,7 +1248,7 @@ def isbytestype(t: type[tp.Any]) -> compat.TypeIs[type[str | bytes | bytearray]]
         >>> istexttype(MyStr)
         True
     """
-    return _safe_issubclass(_resolve_wrappers(t), (bytes, bytearray, memoryview))
+    return _safe_issubclass(_resolve_class(t), (bytes, bytearray, memoryview))
 
 
 @compat.cache
@@ -1265,7 +1265,7 @@ def isnumbertype(t: type[tp.Any]) -> compat.TypeIs[type[numbers.Number]]:
         >>> isnumbertype(decimal.Decimal)
         True
     """
-    return _safe_issubclass(_resolve_wrappers(t), numbers.Number)
+    return _safe_issubclass(_resolve_class(t), numbers.Number)
 
 
 @compat.cache
@@ -1282,7 +1282,7 @@ def isintegertype(t: type[tp.Any]) -> compat.TypeIs[type[int]]:
         >>> isnumbertype(decimal.Decimal)
         False
     """
-    return _safe_issubclass(_resolve_wrappers(t), int)
+    return _safe_issubclass(_resolve_class(t), int)
 
 
 @compat.cache
@@ -1299,7 +1299,7 @@ def isfloattype(t: type[tp.Any]) -> compat.TypeIs[type[float]]:
         >>> isnumbertype(decimal.Decimal)
         False
     """
-    return _safe_issubclass(_resolve_wrappers(t), float)
+    return _safe_issubclass(_resolve_class(t), float)
 
 
 @compat.cache
@@ -1465,7 +1465,7 @@ def ispatterntype(t: tp.Any) -> compat.TypeIs[re.Pattern]:
         >>> ispatterntype(r"^[a-z]+$")
         False
     """
-    return _safe_issubclass(_resolve_wrappers(t), re.Pattern)
+    return _safe_issubclass(_resolve_class(t), re.Pattern)
 
 
 @compat.cache
@@ -1479,7 +1479,7 @@ def ispathtype(t: tp.Any) -> compat.TypeIs[pathlib.Path]:
         >>> ispathtype(".")
         False
     """
-    return _safe_issubclass(_resolve_wrappers(t), pathlib.PurePath)
+    return _safe_issubclass(_resolve_class(t), pathlib.PurePath)
 
 
 @compat.cache
@@ -1537,6 +1537,12 @@ def _safe_issubclass(__cls: type, __class_or_tuple: type | tuple[type, ...]) -> 
         return issubclass(__cls, __class_or_tuple)
     except TypeError:
         return False
+
+
+def _resolve_class(t: tp.Any) -> tp.Any:
+    """The class an annotation stands for: wrappers resolved, then the typing origin (`Pattern[str]` -> `Pattern`)."""
+    t = _resolve_wrappers(t)
+    return tp.get_origin(t) or t
 
 
 # Here we are with a manually-defined set of builtin-types.
